@@ -93,14 +93,15 @@ class C05(Prop):
             words = [w for s in sents for w in s]
             sep = r.choice([" ", " ", " ", "  ", "\n", " \t "])
             text = sep.join(words) if r.random() < 0.8 else " ".join(words)
+            plain = atoms == 0 and not re.search(r"[`\[{]|<[A-Za-z/!]", text)
             if k < 0.35:
                 yield {"kind": "lines", "text": text, "width": width, "ic": r.choice([0, 0, 1, 2, 4, 9, 15]),
-                       "so": r.choice([0, 0, 2, 4, 7]), "md": r.random() < 0.5}
+                       "so": r.choice([0, 0, 2, 4, 7]), "md": r.random() < 0.5, "plain": plain}
             elif k < 0.50:
                 ii, si = r.choice(PREFIXES)
                 if r.random() < 0.3:
                     ii, si = " " * r.randint(0, 6), " " * r.randint(0, 6)
-                yield {"kind": "para", "text": text, "width": width, "ii": ii, "si": si, "md": r.random() < 0.5}
+                yield {"kind": "para", "text": text, "width": width, "ii": ii, "si": si, "md": r.random() < 0.5, "plain": plain}
             elif k < 0.80:
                 ii, si = r.choice(PREFIXES)
                 nseg = r.choice([1, 1, 1, 2, 3])
@@ -225,7 +226,7 @@ class C05(Prop):
         si = " " * case["so"]
         # bodies have no indent at this level: emulate by prefixing
         lines = [(ii if i == 0 else si) + ln for i, ln in enumerate(res)]
-        devs = judge(case["text"], lines, case["width"], ii, si, fill=True, allow_escape=case["md"])
+        devs = judge(case["text"], lines, case["width"], ii, si, fill=True, allow_escape=case["md"], plain_tokens=bool(case.get("plain")))
         self._report(monitor, devs, case, col, mode="fill", indent0=case["ic"], indent=case["so"])
         if distinct and (len(res) >= 2 or case["width"] <= 0):
             col.distinct("lines", case["text"], case["width"], case["ic"], case["so"], case["md"])
@@ -282,7 +283,10 @@ class C05(Prop):
             col.violation("para", f"C05/raised/{res.kind}", case, res.text)
             return
         lines = res.split("\n") if res else []
-        devs = judge(case["text"], lines, case["width"], case["ii"], case["si"], fill=True, allow_escape=case["md"])
+        devs = judge(case["text"], lines, case["width"], case["ii"], case["si"], fill=True, allow_escape=case["md"],
+                     plain_tokens=bool(case.get("plain")))
+        if case.get("plain"):
+            col.count("judged_with_plain_tokens")
         self._report("para", devs, case, col, "fill", len(case["ii"]), len(case["si"]))
         if len(lines) >= 2 or case["width"] <= 0:
             col.distinct("para", case)
